@@ -41,6 +41,11 @@
 #include <sys/wait.h>
 #include <unistd.h>
 
+#if defined(__has_feature)
+#    if __has_feature(address_sanitizer) && !defined(__SANITIZE_ADDRESS__)
+#        define __SANITIZE_ADDRESS__ 1
+#    endif
+#endif
 #if defined(__SANITIZE_ADDRESS__)
 #    define C04_ASAN 1
 #else
@@ -2586,10 +2591,132 @@ static bool parse_mode(const char *mode) {
     return s_ntargets > 0;
 }
 
+#ifdef C04_LIBFUZZER
+/* ================================================================== coverage-guided stage (libFuzzer)
+ * --mode fuzz:<targets>: one case = one libFuzzer session (-runs=p1, -seed derived from the case PRNG, -max_len=4096)
+ * on target targets[case % n], started from the committed seeds of that target; every execution goes through the same
+ * run_<target> function and oracle as the generated inputs. libFuzzer exits the process at the end of a session, so a
+ * process runs exactly one case and the summary is written from an atexit handler. */
+int LLVMFuzzerRunDriver(int *argc, char ***argv, int (*cb)(const uint8_t *data, size_t size));
+static enum target s_fuzz_target;
+static struct mon_rng s_fuzz_rng;
+static uint64_t s_fuzz_execs, s_fuzz_bytes, s_fuzz_nontrivial_inputs;
+static bool s_fuzz_finished;
+
+static int fuzz_one(const uint8_t *data, size_t size) {
+    s_case_flags = 0;
+    s_cur = s_fuzz_target;
+    s_in = NULL;
+    s_in_len = 0;
+    ++s_fuzz_execs;
+    s_fuzz_bytes += size;
+    ++s_stats[s_fuzz_target].cases;
+    watchdog_arm(true);
+    k_defs[s_fuzz_target].run(data, size, &s_fuzz_rng);
+    watchdog_arm(false);
+    bool acc = (s_case_flags >> F_ACCEPT) & 1, rej = (s_case_flags >> F_REJECT) & 1;
+    s_stats[s_fuzz_target].accept += acc;
+    s_stats[s_fuzz_target].reject += rej;
+    if (acc || ((s_case_flags >> F_VIEW) & 1) || ((s_case_flags >> F_CALLBACK) & 1)) {
+        ++s_fuzz_nontrivial_inputs;
+        /* distinct non-trivial inputs: the fingerprint of the session accumulates accepted inputs */
+        mon_fp(hash_bytes(data, size));
+    }
+    return 0;
+}
+
+static void fuzz_atexit(void) {
+    if (s_fuzz_finished) {
+        return;
+    }
+    s_fuzz_finished = true;
+    static char n1[64], n2[64], n3[64];
+    snprintf(n1, sizeof(n1), "fuzz.%s.executions", k_tname[s_fuzz_target]);
+    snprintf(n2, sizeof(n2), "fuzz.%s.accepted_or_viewed", k_tname[s_fuzz_target]);
+    snprintf(n3, sizeof(n3), "fuzz.%s.rejected", k_tname[s_fuzz_target]);
+    mon_count(n1, s_fuzz_execs);
+    mon_count(n2, s_fuzz_nontrivial_inputs);
+    mon_count(n3, s_stats[s_fuzz_target].reject);
+    mon_count("fuzz.executions", s_fuzz_execs);
+    mon_count("fuzz.sessions", 1);
+    mon_count("fuzz.input_bytes", s_fuzz_bytes);
+    mon_sample("libFuzzer session on %s: %llu executions, %llu accepted/viewed, %llu rejected", k_tname[s_fuzz_target], (unsigned long long)s_fuzz_execs,
+               (unsigned long long)s_fuzz_nontrivial_inputs, (unsigned long long)s_stats[s_fuzz_target].reject);
+    mon_case_end(s_fuzz_nontrivial_inputs > 0);
+    mon_finish();
+}
+
+static int fuzz_main(char *argv0) {
+    uint64_t c;
+    if (!mon_next_case(&c)) {
+        return mon_finish();
+    }
+    mon_case_begin(c);
+    s_fuzz_target = s_targets[c % s_ntargets];
+    s_fuzz_rng = mon_case_rng;
+    mon_fp(s_fuzz_target);
+    static char a_runs[48], a_seed[48], a_art[4200], a_out[4200], a_seeddir[4200];
+    long runs = mon_run.param[1] > 0 ? mon_run.param[1] : 100000;
+    snprintf(a_runs, sizeof(a_runs), "-runs=%ld", runs);
+    snprintf(a_seed, sizeof(a_seed), "-seed=%u", (unsigned)(mon_rand(&mon_case_rng) % 2000000000u) + 1);
+    snprintf(a_art, sizeof(a_art), "-artifact_prefix=%s/fuzz-artifact.%d.", mon_run.outdir, mon_run.slice);
+    snprintf(a_out, sizeof(a_out), "%s/fuzzcorpus.%d", mon_run.outdir, mon_run.slice);
+    mkdir(a_out, 0755);
+    {
+        /* same location rule as load_corpus: <verif>/corpus/c04/<target key> */
+        const char *root = getenv("VERIF_CORPUS");
+        char here[900];
+        snprintf(here, sizeof(here), "%s", __FILE__);
+        char *sl = strrchr(here, '/');
+        if (sl) {
+            *sl = 0;
+            sl = strrchr(here, '/');
+        }
+        if (sl) {
+            *sl = 0;
+        } else {
+            strcpy(here, "/verif");
+        }
+        if (root && *root) {
+            snprintf(a_seeddir, sizeof(a_seeddir), "%s/%s", root, k_tkey[s_fuzz_target]);
+        } else {
+            snprintf(a_seeddir, sizeof(a_seeddir), "%s/corpus/c04/%s", here, k_tkey[s_fuzz_target]);
+        }
+    }
+    static char *fargv[16];
+    int n = 0;
+    fargv[n++] = argv0;
+    fargv[n++] = a_runs;
+    fargv[n++] = a_seed;
+    fargv[n++] = "-max_len=4096";
+    fargv[n++] = "-timeout=30";
+    fargv[n++] = "-rss_limit_mb=6000";
+    fargv[n++] = "-print_final_stats=1";
+    fargv[n++] = "-verbosity=0";
+    fargv[n++] = a_art;
+    fargv[n++] = a_out;
+    struct stat stx;
+    if (stat(a_seeddir, &stx) == 0) {
+        fargv[n++] = a_seeddir;
+    }
+    fargv[n] = NULL;
+    char **pa = fargv;
+    atexit(fuzz_atexit);
+    int rc = LLVMFuzzerRunDriver(&n, &pa, fuzz_one);
+    fuzz_atexit();
+    return rc;
+}
+#endif
+
 int main(int argc, char **argv) {
     mon_init(argc, argv, "C04");
     aws_common_library_init(aws_default_allocator()); /* registers the error codes, initialises the JSON module */
+#ifdef C04_LIBFUZZER
+    bool fuzz_mode = !strncmp(mon_run.mode, "fuzz:", 5);
+    if (!parse_mode(fuzz_mode ? mon_run.mode + 5 : mon_run.mode)) {
+#else
     if (!parse_mode(mon_run.mode)) {
+#endif
         fprintf(stderr, "mon: unknown --mode '%s' (comma separated list of:", mon_run.mode);
         for (int t = 0; t < T_COUNT; ++t) {
             fprintf(stderr, " %s", k_tname[t]);
@@ -2612,6 +2739,11 @@ int main(int argc, char **argv) {
         load_corpus(t);
         add_probes(t);
     }
+#ifdef C04_LIBFUZZER
+    if (fuzz_mode) {
+        return fuzz_main(argv[0]);
+    }
+#endif
     uint64_t c;
     while (mon_next_case(&c)) {
         mon_case_begin(c);
